@@ -932,6 +932,12 @@ standardize() {
     }
   }
 
+  if (result.empty() && !_filename.empty()) {
+    // Something like "a/.." reduces to the current directory, which has a
+    // name; the empty filename doesn't name anything.
+    result = ".";
+  }
+
   (*this) = result;
 }
 
